@@ -93,12 +93,15 @@ def pstep (st : PState) (t : Tok) : PState × List Out :=
   | .active, .down p => stepDown st p
   | .active, .term => stepTerm st
 
-/-- The handler driven by the per-frame classification `toks` (frame index ↦ token). It never
-    aborts the session: in the real code only `MessageType::Aborted` does, which no state produces
-    (`BmpState::_Aborted` is never constructed) — in particular **a Termination message does not
-    end the read loop**. -/
-def peerHandler (toks : Nat → Tok) : Handler PState Out :=
-  ⟨fun st i _ => let r := pstep st (toks i); (r.1, r.2, .cont)⟩
+/-- The handler driven by the per-frame classification `toks` (frame index ↦ token).
+    `termEnds = false` is the code as written: it never aborts the session — in the real code only
+    `MessageType::Aborted` does, which no state produces (`BmpState::_Aborted` is never
+    constructed) — in particular **a Termination message does not end the read loop**.
+    `termEnds = true` is the proposed repair: leave the loop once the machine is `Terminated`. -/
+def peerHandler (termEnds : Bool) (toks : Nat → Tok) : Handler PState Out :=
+  ⟨fun st i _ =>
+    let r := pstep st (toks i)
+    (r.1, r.2, if termEnds && r.1.phase == .terminated then .abort else .cont)⟩
 
 def evOuts {Out : Type} : List (Ev Out) → List Out
   | [] => []
